@@ -300,6 +300,15 @@ def index_family():
          'unique_together': [], 'index_together': [], 'indexes': [], 'constraints': []}]}]}
     cf = lambda model, field, *attrs: {'t': 'ChangeField', 'model': model, 'field': field, 'ftype': None,
                                        'initial': None, 'attrs': [list(a) for a in attrs]}
+    spec2 = {'apps': [{'id': 'vapp', 'models': [
+        {'name': 'Owner', 'table': 'vapp_owner', 'fields': [fld('id', 'AutoField', primary_key=True)],
+         'unique_together': [], 'index_together': [], 'indexes': [], 'constraints': []},
+        {'name': 'Item', 'table': 'vapp_item', 'fields': [
+            fld('id', 'AutoField', primary_key=True), fld('code', 'IntegerField', db_column='code_col'),
+            fld('owner', 'ForeignKey', related='vapp.Owner', db_column='owner_col', null=True),
+            fld('tags', 'ManyToManyField', related='vapp.Owner', db_table='vapp_item_tags_x'),
+            fld('plain', 'ManyToManyField', related='vapp.Owner')],
+         'unique_together': [], 'index_together': [], 'indexes': [], 'constraints': []}]}]}
     return [
         (spec, [{'t': 'RenameField', 'model': 'Order', 'old': 'reference', 'new': 'order_no', 'db_column': None,
                  'db_table': None}, cf('Order', 'order_no', ('db_index', 'false'))]),
@@ -309,6 +318,11 @@ def index_family():
         (spec, [{'t': 'RenameField', 'model': 'Order', 'old': 'amount', 'new': 'total', 'db_column': None,
                  'db_table': None}, cf('Order', 'total', ('db_index', 'true'))]),
         (spec, [cf('Order', 'reference', ('db_index', 'false')), cf('Order', 'reference', ('db_index', 'true'))]),
+        # a custom column / table name is removed again (what the hint for such a change looks like)
+        (spec2, [cf('Item', 'code', ('db_column', 'null'))]),
+        (spec2, [cf('Item', 'owner', ('db_column', 'null'))]),
+        (spec2, [cf('Item', 'tags', ('db_table', '"vapp_item_labels"'))]),
+        (spec2, [cf('Item', 'plain', ('db_table', '"vapp_item_plain2"'))]),
     ]
 
 
